@@ -237,15 +237,16 @@ func (c *memClient) Check(context.Context, net.Peer) error { return nil }
 
 func (s *netSim) cancelStreams(pred func(st *simStream) bool) {
 	s.mu.Lock()
-	var cs []context.CancelFunc
+	var all []*simStream
 	for st := range s.streams {
-		if pred(st) {
-			cs = append(cs, st.cancel)
-		}
+		all = append(all, st)
 	}
 	s.mu.Unlock()
-	for _, c := range cs {
-		c()
+	// pred may take s.mu itself (reach)
+	for _, st := range all {
+		if pred(st) {
+			st.cancel()
+		}
 	}
 }
 
